@@ -10,7 +10,7 @@ CFG = {
             ("shm", "lim", "table", 4, 40), ("mem", "def", "table", 10, 100), ("mem", "def", "malformed", 4, 40)],
     "limit": None,
     "conc": "table", "conc_quick": 10,
-    "conc2_quick": (3, 60), "conc2_thorough": (6, None),
+    "conc2_quick": (3, 60), "conc2_thorough": (3, None),
     "rand": ("table", 6, 80),
 }
 
